@@ -33,6 +33,9 @@ type Node struct {
 	Chunks []int  `json:"chunks,omitempty"` // how a streaming form splits its output (sizes-1)
 	InKey  string `json:"inKey,omitempty"`  // compose.WithInputKey: the lambda takes input[InKey] (a string)
 	OutKey string `json:"outKey,omitempty"` // compose.WithOutputKey: the lambda returns a string, seen as {OutKey: s}
+	// with OutKey: the lambda's Go output type is the typed map map[string]string{"v": s} instead of
+	// the string s (a nested typed map under the output key; rendered as s, so the model is unchanged)
+	OutTyped bool `json:"outTyped,omitempty"`
 }
 
 type Branch struct {
@@ -68,10 +71,23 @@ func Render(m M) string {
 	for _, k := range keys {
 		sb.WriteString(k)
 		sb.WriteString("=")
-		sb.WriteString(fmt.Sprint(m[k]))
+		sb.WriteString(fmt.Sprint(UnwrapV(m[k])))
 		sb.WriteString(";")
 	}
 	return sb.String()
+}
+
+// UnwrapV: the typed map map[string]string{"v": s} an OutTyped node puts under its output key stands for s.
+func UnwrapV(v any) any {
+	if tm, ok := v.(map[string]string); ok {
+		if len(tm) == 0 {
+			return ""
+		}
+		if s, ok := tm["v"]; ok && len(tm) == 1 {
+			return s
+		}
+	}
+	return v
 }
 
 func Fnv32(s string) uint32 {
